@@ -14,7 +14,7 @@ import random
 import shutil
 import tempfile
 
-from harness import sched
+from harness import faultfs, sched
 from harness.core import enc_val
 
 ID = "C12"
@@ -347,7 +347,7 @@ def tree_lines(d):
         for x in fns:
             with open(os.path.join(dp, x), "rb") as f:
                 blob = f.read()
-            out.append(sched._TMP_RE.sub("._TMP_", os.path.join(rel, x)) + "=F:" + content_str(blob))
+            out.append(faultfs.canon_name(os.path.join(rel, x)) + "=F:" + content_str(blob))
     return sorted(out)
 
 
